@@ -307,6 +307,20 @@ func applyGlobalTimeBounds(trpls map[string]*triple.Triple, ckr *checker) map[st
 	return selectedTrpls
 }
 
+// samePredicate returns true if both predicates have the same ID, the same type
+// and, for temporal predicates, the same time anchor compared as instants.
+func samePredicate(p1, p2 *predicate.Predicate) bool {
+	if p1.ID() != p2.ID() || p1.Type() != p2.Type() {
+		return false
+	}
+	if p1.Type() == predicate.Immutable {
+		return true
+	}
+	t1, err1 := p1.TimeAnchor()
+	t2, err2 := p2.TimeAnchor()
+	return err1 == nil && err2 == nil && t1.Equal(*t2)
+}
+
 // isImmutableFilter executes the isImmutable filter operation over memoryTriples following filterOptions.
 func isImmutableFilter(memoryTriples map[string]*triple.Triple, pQuery *predicate.Predicate, filterOptions *filter.StorageOptions) (map[string]*triple.Triple, error) {
 	if filterOptions.Field != filter.PredicateField && filterOptions.Field != filter.ObjectField {
@@ -315,7 +329,7 @@ func isImmutableFilter(memoryTriples map[string]*triple.Triple, pQuery *predicat
 
 	trps := make(map[string]*triple.Triple)
 	for _, t := range memoryTriples {
-		if pQuery != nil && pQuery.String() != t.Predicate().String() {
+		if pQuery != nil && !samePredicate(pQuery, t.Predicate()) {
 			continue
 		}
 
@@ -346,7 +360,7 @@ func isTemporalFilter(memoryTriples map[string]*triple.Triple, pQuery *predicate
 
 	trps := make(map[string]*triple.Triple)
 	for _, t := range memoryTriples {
-		if pQuery != nil && pQuery.String() != t.Predicate().String() {
+		if pQuery != nil && !samePredicate(pQuery, t.Predicate()) {
 			continue
 		}
 
@@ -378,7 +392,7 @@ func latestFilter(memoryTriples map[string]*triple.Triple, pQuery *predicate.Pre
 	lastTA := make(map[string]*time.Time)
 	trps := make(map[string]map[string]*triple.Triple)
 	for _, t := range memoryTriples {
-		if pQuery != nil && pQuery.String() != t.Predicate().String() {
+		if pQuery != nil && !samePredicate(pQuery, t.Predicate()) {
 			continue
 		}
 
